@@ -104,7 +104,7 @@ GuardBias(m) == (Used = {}) => (m.kind = "install" \/ (m.kind # "install" /\ m =
 
 Cur == [store |-> store, cluster |-> cluster]
 Sum(p) == [u |-> op[p].u, ok |-> op[p].result = "ok", crs |-> op[p].crs, flt |-> op[p].flt,
-           posted |-> op[p].posted \cap NamedByChart(op[p].u.chart), log |-> op[p].log]
+           posted |-> op[p].posted \cap NamedByChart(op[p].u.chart), log |-> op[p].log, fsub |-> op[p].fsub]
 AtEndM(p) == pc[p] = "End"
 
 \* known findings triggered so far in this behaviour (finished operations and running ones)
